@@ -2,11 +2,11 @@ SPECIFICATION GSpec
 CONSTANTS
   Gor = {"g1", "g2"}
   Eps = {"E", "F"}
-  Svcs = {"xe", "e", "t"}
+  Svcs = {"e", "xe"}
   Adv <- AdvAll
   MaxReq = 2
-  MaxLoss = 0
-  AuthMayRefuse = FALSE
+  MaxLoss = 1
+  AuthMayRefuse = TRUE
   Dev_RUnlockUnderWriteLock = FALSE
   Dev_NilChannelWhenAllSkipped = FALSE
   Dev_AuthFailureLeaksConnection = FALSE
